@@ -57,14 +57,14 @@ PROPS = {
         "floors": {"quick": {"ix_ok/Deposit": 500, "ix_ok/Borrow": 100, "C17.up_to_limit_deposits_accepted": 50}},
     },
     "C04": {
-        "engines": [storm("scen")],
-        "rule": "each evaluation is one accepted borrow/withdraw (committed or simulated) or one health rejection, judged against an independent exact-rational initial-health recomputation from raw bytes and the presented oracle accounts; boundaries are located by bisection with state-preserving simulations so both neighbours of the accept/reject boundary are judged; distinct = (accept/reject, kind, #assets, #liabs, e-mode used, cap active, bad collateral oracle, borderline)",
+        "engines": [storm("scen", sq=12, st=12), storm("venue", arg="C04:venue", sq=4, st=4)],
+        "rule": "each evaluation is one accepted borrow/withdraw (committed or simulated) or one health rejection, judged against an independent exact-rational initial-health recomputation from raw bytes and the presented oracle accounts; boundaries are located by bisection with state-preserving simulations so both neighbours of the accept/reject boundary are judged; the venue engine does the same in worlds whose collateral sits in Kamino / Solend / Drift pass-through banks (reference price = oracle price x exact venue exchange rate); distinct = (accept/reject, kind, #assets, #liabs, e-mode used, cap active, bad collateral oracle, borderline)",
         "assumptions": COMMON_ASSUMPTIONS + ["a health rejection is only judged when the caller presented the canonical risk accounts (otherwise it is attributable to mis-presented accounts)"],
-        "floors": {"quick": {"C04.accepted/Borrow": 200, "C04.accepted/Withdraw": 200, "C04.rejected_for_health/Borrow": 200, "scen.withdraw_boundary_found": 20}},
+        "floors": {"quick": {"C04.accepted/Borrow": 200, "C04.accepted/Withdraw": 200, "C04.rejected_for_health/Borrow": 200, "scen.withdraw_boundary_found": 20, "C04.accepted/KaminoWithdraw": 100, "C04.accepted/SolendWithdraw": 100, "C04.accepted/DriftWithdraw": 100, "venue.withdraw_boundary_found": 20}},
     },
     "C05": {
-        "engines": [storm("scen")],
-        "rule": "each evaluation is one accepted classic liquidation (committed or simulated at the bisected acceptance boundary) judged on pre/post reference maintenance health, flips, liquidator health and the 95/97.5/2.5 percent rule in exact rationals; distinct = (debt decimals, collateral decimals, #assets, #liabs, e-mode)",
+        "engines": [storm("scen", sq=12, st=12), storm("venue", arg="C05:venue", sq=4, st=4)],
+        "rule": "each evaluation is one accepted classic liquidation (committed or simulated at the bisected acceptance boundary) judged on pre/post reference maintenance health, flips, liquidator health and the 95/97.5/2.5 percent rule in exact rationals; the collateral price is first bisected to the exact integer price at which the account turns liquidatable; the venue engine liquidates collateral held in pass-through banks; distinct = (debt decimals, collateral decimals, #assets, #liabs, e-mode)",
         "assumptions": COMMON_ASSUMPTIONS,
         "floors": {"quick": {"C05.liquidations_accepted": 100, "scen.liquidation_boundary_found": 5, "scen.liquidatable_price_boundary_found": 20}},
     },
